@@ -1,7 +1,9 @@
 import Props.C02
+import Props.Examples
 #print axioms Webauthn.Props.C02.sound
 #print axioms Webauthn.Props.C02.reject_any_deviation
 #print axioms Webauthn.verifyReg_ok_iff
 #print axioms Webauthn.parseAttObj_ok
 #print axioms Webauthn.verifyFormat_ok
 #print axioms Webauthn.Props.C10.layout
+#print axioms Webauthn.Props.Examples.reg_accepts
